@@ -61,4 +61,6 @@ def panel (f : Feat) : Panel :=
     prog := prog f,
     ctrl := .ssd (Ssd.por false 22 296) }
 
+attribute [driver_simp] W setRamArea setRamCounter useFullFrame init updateFrame displayFrame prog
+
 end EpdVerif.Drivers.Epd2in7_v2
